@@ -78,6 +78,12 @@ def check_lists(case, stats=None):
         # records given as tuples (a list of tuples is an ordinary Python table; whether the query succeeds is irrelevant here)
         A0 = [tuple(r) for r in A0]
         B0 = [tuple(r) for r in B0] if B0 is not None else None
+    if len(text) % 5 == 2:
+        # the first cell of a list table starts with U+FEFF (rows split by the caller from a file with a BOM): for list tables it is data
+        A0, B0 = copy.deepcopy(A0), copy.deepcopy(B0)
+        for T in (A0, B0):
+            if T and T[0] and isinstance(T[0][0], str) and not isinstance(T[0], tuple):
+                T[0][0] = '\ufeff' + T[0][0]
     A, B = copy.deepcopy(A0), copy.deepcopy(B0)
     rowsA = list(A)
     rowsB = list(B) if B is not None else []
